@@ -166,6 +166,32 @@ def check_case(ctx: Ctx, c: Dict[str, Any], k: int = 0) -> None:
     pst = guarded("PointSetTransformer", lambda: PointSetTransformer(t), form="defaults")
     if pst is not None:
         cmp("PointSetTransformer[defaults]", guarded("PointSetTransformer", lambda: pst(x), form="defaults"), apply_hom(M, P).unsqueeze(0), form="defaults")
+    # ... the generic configurable transform given its parameters as a dict of tensors, or predicted by a callable returning such a dict
+    # (member names, and the aliases a predicting network may use): every form is the same map
+    if name.startswith("Generic"):
+        from deepali.spatial.generic import GenericSpatialTransform
+
+        # (values as a NON-optimisable member holds them: an optimisable member stores a re-parameterised version of its angles / scales)
+        t_plain = guarded("construct", lambda: build(name, parts, g, "tensor"), role="generic params source")
+        pd = guarded("data()", lambda: {nm: ch.data().detach().clone() for nm, ch in t_plain.named_transforms()}) if t_plain is not None else None
+        if pd is not None:
+            alias = {"translation": "offset", "rotation": "angles", "scaling": "scales"}
+            pd_alias = {alias.get(kk, kk): vv for kk, vv in pd.items()}
+            forms_ = [("dict", lambda: GenericSpatialTransform(g, params=dict(pd), config=t.config)), ("callable", lambda: GenericSpatialTransform(g, params=lambda *a_, **k_: dict(pd), config=t.config)),
+                      ("callable, aliases", lambda: GenericSpatialTransform(g, params=lambda *a_, **k_: dict(pd_alias), config=t.config))]
+            if "shearing" in pd:  # (a predicting callable has no key for shear parameters: dict form only)
+                forms_ = forms_[:1]
+            for form, mk in forms_:
+                tg = guarded("construct[generic params]", mk, form=form)
+                if tg is None:
+                    continue
+                cmp("call[generic params]", guarded("call[generic params]", lambda: tg(x), form=form), apply_hom(M, P).unsqueeze(0), form=form)
+                Tg = guarded("tensor[generic params]", lambda: as_homogeneous_matrix(tg.update().tensor()), form=form)
+                if Tg is not None:
+                    cmp("tensor[generic params]", Tg[0], M, form=form)
+                dd = guarded("data[generic params]", lambda: tg.update() and {nm: ch.data() for nm, ch in tg.named_transforms()}, form=form)
+                if dd is not None and any(max_err(dd[kk], pd[kk]) > 1e-6 for kk in pd):
+                    bad("data[generic params]", "the members do not hold the given parameters", form=form)
     # ... a displacement field FITTED to a given flow field describes that flow: given on its own grid with cube or world vectors, and on another grid
     if name == "DisplacementFieldTransform":
         from deepali.data.flow import FlowFields
